@@ -517,6 +517,92 @@ func c01Wire(c *fw.Ctx, nClusters int) {
 	}
 }
 
+// c01Holes: hbase:meta has no row for one region of the table (a hole between
+// two listed regions, or after the last listed one with a same-prefixed table
+// following). A key in the hole is outside every known range: it must be
+// resolved through hbase:meta - over and over, since meta keeps answering with
+// the preceding row - and never be sent to the neighbouring region.
+func c01Holes(c *fw.Ctx, n int) {
+	r := c.Rand("holes")
+	for ci := 0; ci < n; ci++ {
+		caseID := fmt.Sprintf("hole-%d", ci)
+		cl := sim.NewCluster(c.Seed*7000+int64(ci), 1+r.Intn(3))
+		bounds := [][]byte{[]byte("d"), []byte("h"), []byte("m"), []byte("t")}[:2+r.Intn(3)]
+		regs := cl.CreateTable("t", bounds, nil)
+		cl.CreateTable("t1", nil, nil)
+		cl.CreateTable("ta", [][]byte{[]byte("h")}, nil)
+		cl.EchoResults = true
+		hi := 1 + r.Intn(len(regs)-1) // never the first region: the table would look absent
+		hole := regs[hi]
+		cl.SetInMeta(hole.Name, false)
+		warm := r.Intn(2) == 0
+		descr := fmt.Sprintf("bounds=%q hole=[%q,%q) warm=%v", bounds, hole.Start, hole.Stop, warm)
+		c.Begin(caseID, descr)
+		client := newClient(cl, gohbase.RegionLookupTimeout(2*time.Second), gohbase.RegionReadTimeout(2*time.Second))
+		one := func(i int, kind string, key []byte, dl time.Duration) (string, error) {
+			opid := fmt.Sprintf("%shole-%d-%d-%d", sim.OpIDPrefix, c.Batch, ci, i)
+			ctx, cancel := context.WithTimeout(context.Background(), dl)
+			defer cancel()
+			var err error
+			within(10*time.Second, func() {
+				switch kind {
+				case "get":
+					g, _ := hrpc.NewGet(ctx, []byte("t"), key, hrpc.Families(map[string][]string{"echo": {opid}}))
+					_, err = client.Get(g)
+				case "put":
+					p, _ := hrpc.NewPut(ctx, []byte("t"), key, map[string]map[string][]byte{"f": {opid: []byte("v")}})
+					_, err = client.Put(p)
+				default:
+					p, _ := hrpc.NewPut(ctx, []byte("t"), key, map[string]map[string][]byte{"f": {opid: []byte("v")}})
+					res, _ := client.SendBatch(ctx, []hrpc.Call{p})
+					err = res[0].Error
+				}
+			})
+			return opid, err
+		}
+		if warm { // the neighbours are cached first
+			for i, rg := range regs {
+				if i != hi {
+					if _, err := one(100+i, "get", append(append([]byte{}, rg.Start...), '0'), 5*time.Second); err != nil {
+						c.Violate(caseID, "wire:request-failed", fmt.Sprintf("key of a listed region failed: %v: %s", err, descr), descr)
+					}
+				}
+			}
+		}
+		holeKeys := [][]byte{hole.Start, append(append([]byte{}, hole.Start...), 0), append(append([]byte{}, hole.Start...), 'z', 'z')}
+		inHole := map[string]bool{}
+		for i, k := range holeKeys {
+			kind := []string{"get", "put", "batch"}[(i+ci)%3]
+			opid, err := one(i, kind, k, 120*time.Millisecond)
+			inHole[opid] = true
+			c.Eval(fmt.Sprintf("hole|%q|%q|%q|%v|%s", bounds, hole.Start, k, warm, kind), true)
+			c.Count("hole_requests", 1)
+			if err == nil {
+				c.Violate(caseID, "wire:hole-key-served", fmt.Sprintf("%s row %q succeeded although hbase:meta lists no region containing it: %s", kind, k, descr), descr)
+			}
+		}
+		metaLookups := 0
+		for _, e := range cl.Log.Snapshot() {
+			switch e.Kind {
+			case "meta-lookup":
+				metaLookups++
+			case "misroute":
+				c.Violate(caseID, "wire:misrouted", fmt.Sprintf("op %s row %q sent to region %q on %s which does not contain it: %s", e.OpID, e.Row, e.Region, e.Server, descr), descr)
+			case "exec", "exec-fault":
+				if inHole[e.OpID] {
+					c.Violate(caseID, "wire:hole-key-sent", fmt.Sprintf("op %s row %q was sent to region %q although meta lists no region containing it: %s", e.OpID, e.Row, e.Region, descr), descr)
+				}
+			}
+		}
+		if metaLookups < len(holeKeys) {
+			c.Violate(caseID, "wire:no-lookup-for-unknown-key", fmt.Sprintf("%d meta lookups for %d keys outside every known range: %s", metaLookups, len(holeKeys), descr), descr)
+		}
+		c.Count("hole_meta_lookups", int64(metaLookups))
+		within(3*time.Second, client.Close)
+		cl.Close()
+	}
+}
+
 func init() {
 	fw.Register(&fw.Prop{
 		ID:    "C01",
@@ -528,7 +614,8 @@ func init() {
 			"(2) real client vs simulated cluster: seeded clusters of 1..4 hostile-named tables with 1..6 regions, " +
 			"40..70 sequential requests of all kinds incl. batches over boundary-adjacent keys; every executed action " +
 			"judged by owner(table,row)==(region,server) and meta lookups counted per first touch; then 8 concurrent callers x 6 requests " +
-			"(no lookup for keys of regions resolved before, no misrouting). distinct wire case = " +
+			"(no lookup for keys of regions resolved before, no misrouting); (3) tables whose hbase:meta lacks the row of one " +
+			"region: keys in the hole are never sent anywhere. distinct wire case = " +
 			"(kind, table, layout, keys)",
 		Assumptions: []string{
 			"the simulated hbase:meta answers lookups semantically (tuple order), independent of the client's comparator",
@@ -542,11 +629,12 @@ func init() {
 		},
 		Floors: func(tier string) map[string]int64 {
 			return map[string]int64{"cache_lookups_checked": 1000000, "wire_actions_checked": 2000, "wire_meta_lookups": 100,
-				"wire_clusters": 200, "wire_concurrent_actions_checked": 5000, "lookup_class_key==boundary": 1000, "lookup_class_comma-key": 1000}
+				"wire_clusters": 200, "hole_requests": 100, "wire_concurrent_actions_checked": 5000, "lookup_class_key==boundary": 1000, "lookup_class_comma-key": 1000}
 		},
 		Run: func(c *fw.Ctx) {
 			c01Lookup(c)
 			c01Wire(c, c.Pick(240, 3200)/c.NBatches)
+			c01Holes(c, c.Pick(48, 640)/c.NBatches)
 		},
 	})
 }
